@@ -366,6 +366,18 @@ def ctx : Ctx := {{
                 if mm:
                     ex.append(f"({mm}, {nm(d)}, {nm(kv['rule'])})")
     chunked("exempt", "List (Mode × Name × Name)", list(dict.fromkeys(ex)), out)
+    # config-database key ids named by a known finding (`key=key=0x…;class=…`)
+    exk = []
+    if os.path.exists(kf):
+        for line in open(kf):
+            line = line.strip()
+            if line.startswith("known:") and " key=key=0x" in line:
+                h = line.split(" key=key=0x", 1)[1].split(";", 1)[0].split()[0]
+                try:
+                    exk.append(str(int(h, 16)))
+                except ValueError:
+                    pass
+    out.append("def exemptKeyIds : List Nat := [" + ", ".join(dict.fromkeys(exk)) + "]")
 
     out.append("end Ubx.Gen")
     text = "\n".join(out) + "\n"
